@@ -1975,27 +1975,27 @@ namespace cds { namespace intrusive {
             position pos;
             node_type * pDel;
 
-            {
+            for ( ;; ) {
                 rcu_lock l;
 
                 if ( !find_min_position( pos )) {
                     m_Stat.onExtractMinFailed();
                     pDel = nullptr;
+                    break;
                 }
-                else {
-                    pDel = pos.pCur;
-                    unsigned int const nHeight = pDel->height();
 
-                    if ( try_remove_at( pDel, pos, []( value_type const& ) {}, true )) {
-                        --m_ItemCounter;
-                        m_Stat.onRemoveNode( nHeight );
-                        m_Stat.onExtractMinSuccess();
-                    }
-                    else {
-                        m_Stat.onExtractMinFailed();
-                        pDel = nullptr;
-                    }
+                pDel = pos.pCur;
+                unsigned int const nHeight = pDel->height();
+
+                if ( try_remove_at( pDel, pos, []( value_type const& ) {}, true )) {
+                    --m_ItemCounter;
+                    m_Stat.onRemoveNode( nHeight );
+                    m_Stat.onExtractMinSuccess();
+                    break;
                 }
+
+                // another thread is removing this node right now: the list is not known to be empty, look again
+                m_Stat.onExtractMinRetry();
             }
 
             return pDel ? node_traits::to_value_ptr( pDel ) : nullptr;
@@ -2008,27 +2008,27 @@ namespace cds { namespace intrusive {
             position pos;
             node_type * pDel;
 
-            {
+            for ( ;; ) {
                 rcu_lock l;
 
                 if ( !find_max_position( pos )) {
                     m_Stat.onExtractMaxFailed();
                     pDel = nullptr;
+                    break;
                 }
-                else {
-                    pDel = pos.pCur;
-                    unsigned int const nHeight = pDel->height();
 
-                    if ( try_remove_at( pDel, pos, []( value_type const& ) {}, true )) {
-                        --m_ItemCounter;
-                        m_Stat.onRemoveNode( nHeight );
-                        m_Stat.onExtractMaxSuccess();
-                    }
-                    else {
-                        m_Stat.onExtractMaxFailed();
-                        pDel = nullptr;
-                    }
+                pDel = pos.pCur;
+                unsigned int const nHeight = pDel->height();
+
+                if ( try_remove_at( pDel, pos, []( value_type const& ) {}, true )) {
+                    --m_ItemCounter;
+                    m_Stat.onRemoveNode( nHeight );
+                    m_Stat.onExtractMaxSuccess();
+                    break;
                 }
+
+                // another thread is removing this node right now: the list is not known to be empty, look again
+                m_Stat.onExtractMaxRetry();
             }
 
             return pDel ? node_traits::to_value_ptr( pDel ) : nullptr;
